@@ -12,7 +12,8 @@ TARGET_TEMPLATES = ["@@ = 1\n", "for @@ in x: pass\n", "with a as @@: pass\n", "
                     "with a as b, c as @@: pass\n", "for @@ in a:\n    pass\nelse:\n    pass\n"]
 
 
-FIXED_TEMPLATES = ["x = p and @@\n", "x = @@ and q\n", "x = p or @@\n", "x = @@ or q\n", "if ready and @@:\n    pass\n", "[i for i in s if i and @@]\n", "x = not @@\n",
+FIXED_TEMPLATES = ["x = f(@@, @@)\n", "x = @@ if @@ else @@\n", "x = @@  # like `glob` and $(this)\n", "y = [@@, 'a', @@]\nz = @@\n", "x = {@@: @@}\n", "x = (@@,\n     @@)\n",
+                   "x = @@ + @@ * @@\n", "print(@@); print(@@)\n", "x = @@\ny = @@\n", "x = p and @@\n", "x = @@ and q\n", "x = p or @@\n", "x = @@ or q\n", "if ready and @@:\n    pass\n", "[i for i in s if i and @@]\n", "x = not @@\n",
                    "open(@@, 'rb')\n", "@@ / 'data.txt'\n", "x = @@\nmode = 'w'\n", "def g(p=@@, enc='utf8'): pass\n", "x = [@@, 'a', f'{b}', 'c']\n", "y = @@ if 's' else 't'\n",
                    "print('a', @@, 'b')\n", "x = {'k': @@, 'l': 'm'}\n", "f(@@)('s')\n", "x = @@, 'tail'\n"]
 
@@ -106,7 +107,11 @@ def a_templates(templates, hole_after=False):
         tmpl, key = templates[ti], KEYS[ci]
         text, trans = oracles2.CONSTRUCTS[key]
         rec = {"outcome": "?", "validated": 0, "viol": []}
-        if hole_after:
+        if hole_after and tmpl.count("@@") != 1:
+            hole_after_ = False
+        else:
+            hole_after_ = hole_after
+        if hole_after_:
             i = tmpl.index("@@")
             sym = chars.sym_text(ex, "n", 1)
             src = SymStr.mk(tmpl[:i] + text) + sym + tmpl[i + 2:]
@@ -119,7 +124,7 @@ def a_templates(templates, hole_after=False):
         v = oracles2.c05(X, tmpl, key)
         rec["validated"] += 3
         rec["w"] = [tmpl, key]
-        if not hole_after:
+        if not hole_after_:
             kp, tp = oracles.run_parse(X, tmpl.replace("@@", oracles2.HOLE), "exec")
             rec["outcome"] = "expression-hole" if kp == "ok" and oracles2._hole_status(tp)[0] == "load" else "not-a-hole"
         if v is not None:
